@@ -242,3 +242,100 @@ def replay_set(d):
             if skipped != want:
                 bad.append(item)
     return bool(bad), 'lexical set %s: the real lexer and ES5 clause 7 disagree on %r' % (w['set'], bad)
+
+
+# ------------------------------------------------------------------------------------------ leg G: contextual get / set
+K_G_WORD = 'C03 G: get/set used as an ordinary identifier directly before a word token (in, instanceof, another name after a line break) is lexed as an accessor introducer'
+K_G_NAME = 'C03 G: an accessor whose property name is a string or numeric literal is rejected'
+
+
+def g_texts(Tb, G, sp, words):
+    """(kind, token kinds, text, reference token kinds): `get`/`set` as an ordinary identifier in every ID position of the given
+    accepted token strings, and accessors with every kind of property name"""
+    out = []
+    for w in words:
+        ids = [i for i, t in enumerate(w) if t == 'ID']
+        for i in ids[:3]:
+            for name in ('get', 'set'):
+                toks = [sp[t] for t in w]
+                toks[i] = name
+                out.append(('name', tuple(w), ' '.join(toks), tuple(w), i, name))
+        for i, t in enumerate(w):
+            if t in ('GETPROP', 'SETPROP') and i + 1 < len(w) and w[i + 1] == 'ID':
+                for alt, spell in (('STRING', "'s'"), ('NUMBER', '1'), ('IF', 'if'), ('ID', 'get')):
+                    toks = [sp[x] for x in w]
+                    toks[i + 1] = spell
+                    w2 = tuple(w[:i + 1]) + (alt,) + tuple(w[i + 2:])
+                    out.append(('accessor', tuple(w), ' '.join(toks), w2, i + 1, spell))
+    return out
+
+
+def g_judge(kind, text, plain_text, name, plain_name):
+    """real parse of the text vs real parse of the same text with an ordinary spelling"""
+    from calmjs.parse.parsers.es5 import parse
+    from calmjs.parse.walkers import ReprWalker
+    try:
+        ref = ReprWalker().walk(parse(plain_text))
+    except Exception as e:
+        return None
+    try:
+        got = ReprWalker().walk(parse(text))
+    except Exception as e:
+        return 'rejected: %s' % e
+    if kind == 'name' and got.replace("value='%s'" % name, "value='%s'" % plain_name) != ref:
+        return 'different tree'
+    return None
+
+
+def replay_g(d):
+    w = d['input']
+    msg = g_judge(w['kind'], w['text'], w['plain_text'], w['name'], w['plain_name'])
+    return bool(msg), 'text %r (ES5 reads it like %r, which is accepted): %s' % (w['text'], w['plain_text'], msg or 'same tree')
+
+
+_GL = {}
+
+
+def _gjob(chunk):
+    sp = _GL['sp']
+    out = []
+    for item in chunk:
+        kind, w, text, w2, i, name = item
+        msg = g_judge(kind, text, ' '.join(sp[t] for t in w), name, sp['ID'])
+        if msg:
+            out.append((item, msg))
+    return out
+
+
+def run_leg_g(run, Tb, G, sp, ref, words, ref_accepts):
+    from .. import replay as rp
+    items = g_texts(Tb, G, sp, words)
+    n = 0
+    pending = {}
+    refcache = {}
+    _GL['sp'] = sp
+    boot.warm_tabs()            # the default table modules must exist before workers fork (they would race to write them)
+    res = common.pmap(_gjob, [items[k::64] for k in range(64)])
+    flagged = [x for chunk in res for x in chunk]
+    n = len(items)
+    for (kind, w, text, w2, i, name), msg in flagged:
+        plain = ' '.join(sp[t] for t in w)
+        if kind == 'accessor':
+            # is the variant ES5 at all?  (reference grammar on the token string with the alternative property name)
+            if w2 not in refcache:
+                refcache[w2] = ref_accepts(list(w2), Tb, ref)
+            if not refcache[w2]:
+                continue
+            key = K_G_NAME if name in ("'s'", '1') else 'C03 G: accessor named %s rejected' % name
+        else:
+            nxt = w[i + 1] if i + 1 < len(w) else None
+            key = K_G_WORD if nxt in ('IN', 'INSTANCEOF') else 'C03 G: %s as an identifier before %s: %s' % (name, nxt, msg[:40])
+        pending.setdefault(key, {'property': 'C03', 'input': {'claim': 'contextual', 'kind': kind, 'text': text, 'plain_text': plain, 'name': name, 'plain_name': sp['ID']}})
+    for key, rpd in pending.items():
+        ok, detail = rp.run_in_subprocess(rpd)
+        if ok:
+            run.violation(key, detail[:400], rpd)
+        else:
+            run.inconclusive_('contextual get/set difference did not reproduce: %s' % key)
+    run.leg('G_contextual_get_set', texts=n)
+    return n
